@@ -1,9 +1,9 @@
 package main
 
 import (
-	"sync"
 	"sort"
 	"strings"
+	"sync"
 
 	"golang.org/x/tools/go/ssa"
 )
@@ -240,17 +240,15 @@ func c18PostHashAppends(p *Prog) *RuleResult {
 	// appends on the cell
 	deps := map[string]string{} // option field -> first append position
 	nappends := 0
-	for _, rf := range *cell.Referrers() {
-		c, ok := rf.(*ssa.Call)
-		if !ok || len(c.Call.Args) == 0 || c.Call.Args[0] != ssa.Value(cell) {
-			continue
-		}
-		name := calleeFullName(c)
-		if strings.HasSuffix(name, "Joiner).Done") || strings.HasSuffix(name, "Joiner).Length") || strings.HasSuffix(name, "Joiner).LastByte") || strings.HasSuffix(name, "Joiner).Contains") {
-			continue
-		}
+	isJoinerRead := func(name string) bool {
+		return strings.HasSuffix(name, "Joiner).Done") || strings.HasSuffix(name, "Joiner).Length") || strings.HasSuffix(name, "Joiner).LastByte") || strings.HasSuffix(name, "Joiner).Contains")
+	}
+	record := func(c *ssa.Call, extra map[string]bool, pos string) {
 		nappends++
 		fields := map[string]bool{}
+		for f := range extra {
+			fields[f] = true
+		}
 		for _, a := range c.Call.Args[1:] {
 			optionFieldsIn(a, fields)
 		}
@@ -258,8 +256,48 @@ func c18PostHashAppends(p *Prog) *RuleResult {
 			optionFieldsIn(ifi.Cond, fields)
 		}
 		for f := range fields {
-			if _, ok := deps[f]; !ok || p.Pos(c.Pos()) < deps[f] {
-				deps[f] = p.Pos(c.Pos())
+			if _, ok := deps[f]; !ok || pos < deps[f] {
+				deps[f] = pos
+			}
+		}
+	}
+	for _, rf := range *cell.Referrers() {
+		c, ok := rf.(*ssa.Call)
+		if !ok || len(c.Call.Args) == 0 {
+			continue
+		}
+		name := calleeFullName(c)
+		if c.Call.Args[0] == ssa.Value(cell) && strings.Contains(name, "helpers.Joiner).") {
+			if !isJoinerRead(name) {
+				record(c, nil, p.Pos(c.Pos()))
+			}
+			continue
+		}
+		// the joiner handed to a helper of the module: its appends count, under the caller's
+		// conditions at the call site plus the helper's own
+		callee := c.Call.StaticCallee()
+		if callee == nil || !p.InModule(callee) || len(callee.Blocks) == 0 {
+			continue
+		}
+		for ai, a := range c.Call.Args {
+			if a != ssa.Value(cell) || ai >= len(callee.Params) {
+				continue
+			}
+			outer := map[string]bool{}
+			for _, ifi := range controlDepIfsTransitive(c.Block()) {
+				optionFieldsIn(ifi.Cond, outer)
+			}
+			prm := callee.Params[ai]
+			if prm.Referrers() == nil {
+				continue
+			}
+			for _, pr := range *prm.Referrers() {
+				if c2, ok := pr.(*ssa.Call); ok && len(c2.Call.Args) > 0 && c2.Call.Args[0] == ssa.Value(prm) {
+					n2 := calleeFullName(c2)
+					if strings.Contains(n2, "helpers.Joiner).") && !isJoinerRead(n2) {
+						record(c2, outer, p.Pos(c2.Pos()))
+					}
+				}
 			}
 		}
 	}
